@@ -800,3 +800,123 @@ impl Session {
         }
     }
 }
+
+/// Verification hook: copy of one peer's manager-side state.
+#[cfg(rdest_verif)]
+#[derive(Debug, Clone, PartialEq)]
+#[allow(missing_docs)]
+pub struct VerifPeerSnapshot {
+    pub addr: String,
+    pub id: Option<[u8; PEER_ID_SIZE]>,
+    pub pieces: Vec<bool>,
+    pub piece_index: Option<usize>,
+    pub am_interested: bool,
+    pub am_choked: bool,
+    pub interested: bool,
+    pub choked: bool,
+    pub optimistic_unchoke: bool,
+    pub download_rate: Option<u32>,
+    pub uploaded_rate: Option<u32>,
+}
+
+/// Verification hook: copy of the manager state.
+#[cfg(rdest_verif)]
+#[derive(Debug, Clone, PartialEq)]
+#[allow(missing_docs)]
+pub struct VerifSnapshot {
+    pub statuses: Vec<Status>,
+    pub peers: Vec<VerifPeerSnapshot>,
+    pub round: usize,
+    pub candidates: usize,
+    pub files_extracted: bool,
+}
+
+/// Verification hooks. Each one only exposes or calls existing private logic.
+#[cfg(rdest_verif)]
+#[allow(missing_docs)]
+impl Session {
+    pub fn verif_add_peer(&mut self, addr: &str, id: Option<[u8; PEER_ID_SIZE]>) {
+        let job = tokio::spawn(async {});
+        let peer = Peer::new(id, self.metainfo.pieces_num(), job);
+        self.peers.insert(addr.to_string(), peer);
+    }
+
+    pub fn verif_new_handler(
+        &mut self,
+        addr: &str,
+        peer_id: Option<[u8; PEER_ID_SIZE]>,
+    ) -> PeerHandler {
+        PeerHandler::new(
+            addr.to_string(),
+            self.own_id,
+            peer_id,
+            *self.metainfo.info_hash(),
+            self.metainfo.pieces_num(),
+            self.general_channels.tx.clone(),
+            self.general_channels.broad.subscribe(),
+        )
+    }
+
+    pub fn verif_try_recv_peer_cmd(&mut self) -> Option<PeerCmd> {
+        self.general_channels.rx.try_recv().ok()
+    }
+
+    pub async fn verif_handle_peer_cmd(&mut self, cmd: PeerCmd) -> Result<bool, Error> {
+        self.handle_peer_cmd(cmd).await
+    }
+
+    pub async fn verif_kill_peer(&mut self, addr: &str) {
+        self.kill_peer(&addr.to_string()).await
+    }
+
+    pub fn verif_snapshot(&self) -> VerifSnapshot {
+        let mut peers: Vec<VerifPeerSnapshot> = self
+            .peers
+            .iter()
+            .map(|(addr, peer)| VerifPeerSnapshot {
+                addr: addr.clone(),
+                id: peer.id,
+                pieces: peer.pieces.clone(),
+                piece_index: peer.piece_index,
+                am_interested: peer.am_interested,
+                am_choked: peer.am_choked,
+                interested: peer.interested,
+                choked: peer.choked,
+                optimistic_unchoke: peer.optimistic_unchoke,
+                download_rate: peer.download_rate,
+                uploaded_rate: peer.uploaded_rate,
+            })
+            .collect();
+        peers.sort_by(|a, b| a.addr.cmp(&b.addr));
+
+        VerifSnapshot {
+            statuses: self.pieces_status.clone(),
+            peers,
+            round: self.round,
+            candidates: self.candidates.len(),
+            files_extracted: self.files_extracted,
+        }
+    }
+
+    pub async fn verif_choose_piece_index(&mut self, addr: &str) -> Option<usize> {
+        self.choose_piece_index(&addr.to_string()).await
+    }
+
+    pub async fn verif_rotate(&mut self) -> Result<(), Box<dyn std::error::Error>> {
+        self.timeout_change_conn_state().await
+    }
+
+    pub fn verif_subscribe(&self) -> broadcast::Receiver<BroadCmd> {
+        self.general_channels.broad.subscribe()
+    }
+
+    pub fn verif_set_status(&mut self, piece_index: usize, status: Status) {
+        self.pieces_status[piece_index] = status;
+    }
+
+    pub fn verif_set_peer_pieces(&mut self, addr: &str, pieces: &Vec<bool>) {
+        if let Some(peer) = self.peers.get_mut(addr) {
+            peer.update_pieces(pieces);
+        }
+    }
+}
